@@ -566,6 +566,8 @@ type Variant struct {
 	Noise     bool
 	NoiseOld  bool   // the EVM-executing queries ask old heights before the latest one
 	Virtual   bool   // virtual block boundaries (conformance check of the E1 engine's block trick)
+	TZ        int    // seconds east of UTC of the process-local time zone (0: UTC)
+	Config    bool   // node-local settings differ from the defaults (app.toml: mempool gas cap, min gas prices, API options)
 	Second    bool   // construct another application object first
 	RestartAt int    // restart after the commit of this block index (-1: never)
 	Restart   string // "same-db" | "copied-db" | "twice"
@@ -575,9 +577,18 @@ type Variant struct {
 func (f *Fix) Replay(h History, v Variant) (Trace, *world.World) {
 	nondet.MapSeed(true, v.MapSeed)
 	nondet.ClockOffset(v.ClockSec)
+	oldLocal, oldCfg := time.Local, world.NodeConfig
+	if v.TZ != 0 {
+		time.Local = time.FixedZone("verif", v.TZ)
+	}
+	if v.Config {
+		world.NodeConfig = map[string]interface{}{"evm.max-tx-gas-wanted": uint64(100000), "minimum-gas-prices": "7aISLM", "evm.tracer": "", "json-rpc.gas-cap": uint64(1000),
+			"iavl-cache-size": 10, "min-retain-blocks": uint64(0)}
+	}
 	defer func() {
 		nondet.MapSeed(true, 0)
 		nondet.ClockOffset(0)
+		time.Local, world.NodeConfig = oldLocal, oldCfg
 	}()
 	if v.Second {
 		_ = world.NewApp(dbm.NewMemDB(), world.DefaultChainID) // construction order / package globals
